@@ -1,6 +1,7 @@
 package h
 
 import (
+	"sync"
 	"fmt"
 
 	"github.com/bilibili/gengine/engine"
@@ -56,6 +57,17 @@ type Req struct {
 	In     *In
 	hidden int64 // unexported: a rule that returns it must fail (reflection cannot hand the value out)
 }
+
+// Grow appends to the slice a rule is ranging over (the loop must still end after the rounds it began with).
+func (r *Req) Grow() {
+	growMu.Lock()
+	if len(r.Sl) < 4096 {
+		r.Sl = append(r.Sl, 1)
+	}
+	growMu.Unlock()
+}
+
+var growMu sync.Mutex
 
 type Resp struct {
 	Echo, Mark                     int64
